@@ -242,6 +242,42 @@ pub fn run(s: &mut Src, ctx: &mut Ctx) -> Verdict {
             return Verdict::fail("history-order", format!("step {}: history not strictly increasing {:?}", i, hist));
         }
     }
+    // Two spellings of one configuration: bounded out-of-orderness with delay 0 IS the monotone strategy. Whatever one
+    // does after every event, the other does too.
+    if delay == 0 {
+        let mk = |mono: bool| {
+            let ws = if mono { WatermarkStrategy::MonotonicAscending } else { WatermarkStrategy::BoundedOutOfOrder { max_delay: Duration::from_millis(0) } };
+            let ls = match late {
+                Late::Drop => LateDataStrategy::Drop,
+                Late::Allowed(l) => LateDataStrategy::AllowedLateness { max_lateness: Duration::from_millis(l) },
+                Late::Side => LateDataStrategy::SideOutput,
+                Late::Recompute => LateDataStrategy::RecomputeWindows,
+            };
+            WatermarkedStream::new(ws, ls)
+        };
+        let (mut a, mut b) = (mk(true), mk(false));
+        for (i, &t) in ts.iter().enumerate() {
+            let _ = a.add_event(ev(i, t));
+            let _ = b.add_event(ev(i, t));
+            let view = |x: &WatermarkedStream| {
+                let st = x.late_stats();
+                (
+                    x.current_watermark().timestamp,
+                    x.events().iter().map(|e| e.id.clone()).collect::<Vec<_>>(),
+                    x.side_output().iter().map(|e| e.id.clone()).collect::<Vec<_>>(),
+                    (st.total_late, st.dropped, st.allowed, st.side_output),
+                    x.watermark_history().iter().map(|w| w.timestamp).collect::<Vec<_>>(),
+                )
+            };
+            if view(&a) != view(&b) {
+                return Verdict::fail(
+                    "two-spellings-differ:monotonic-vs-bounded-0",
+                    format!("step {} (t={}): MonotonicAscending gives {:?} but BoundedOutOfOrder(0 ms) gives {:?}", i, t, view(&a), view(&b)),
+                );
+            }
+        }
+        ctx.label("monotonic-vs-bounded-0-compared");
+    }
     if delay > 10 {
         ctx.label("wide-delay(>10ms)");
     }
